@@ -19,26 +19,7 @@ for path, f in sorted(prog.fns.items()):
         if nm is None and l - 1 < len(f.arg_names) and f.arg_names[l - 1]:
             nm = f.arg_names[l - 1]
         args.append(nm)
-    up = {}
-    if f.kind == "Closure":
-        def scan(pl):
-            if pl and pl.get("l") == 1:
-                for p in pl["p"]:
-                    if p["k"] == "field":
-                        up.setdefault(str(p["i"]), p["name"])
-                        break
-                    if p["k"] != "deref":
-                        break
-        def walk(x):
-            if isinstance(x, dict):
-                if "l" in x and "p" in x and isinstance(x["p"], list):
-                    scan(x)
-                for v in x.values():
-                    walk(v)
-            elif isinstance(x, list):
-                for v in x:
-                    walk(v)
-        walk(f.blocks)
+    up = list(getattr(f, "upvar_names", None) or []) if f.kind == "Closure" else []
     if any(args) or up:
         out[path] = {"args": args, "upvars": up}
 p = os.path.join(F.VERIF, "tables", "pinned_names.json")
